@@ -175,7 +175,24 @@ impl<'a> Gen<'a> {
         }
         match ty { Ty::I => self.int_lit(), Ty::F => self.float_lit() }
     }
+    /// A register read combined with a neutral / absorbing / cancelling constant or with itself: the shapes an
+    /// "algebraic simplification" would want to fold.  Folding them is wrong for some values (x*0.0 for x = -1.0, inf,
+    /// NaN; x-x and x/x for inf / NaN / 0; 0/x for x = 0; int(x)+0 ...), which only a VM valuation shows.
+    fn bait(&mut self, ty: Ty) -> String {
+        self.bump("identity_bait");
+        let (sig, pool, zero, one) = match ty { Ty::I => ("$", &INT_REGS, "0", "1"), Ty::F => ("%", &FLOAT_REGS, "0.0", "1.0") };
+        let x = format!("{}REG[{}]", sig, self.rng.pick(pool));
+        let forms: &[&str] = match ty {
+            Ty::I => &["(X * 0)", "(0 * X)", "(X * 1)", "(1 * X)", "(X + 0)", "(0 + X)", "(X - 0)", "(X - X)", "(X / 1)", "(X / X)", "(0 / X)", "(X % 1)",
+                       "(X & 0)", "(X | 0)", "(X ^ X)", "(X && 0)", "(X || 1)", "(X << 0)", "(X >> 0)", "(0 - X)", "(X == X)", "(X != X)", "(-(-(X)))", "(~(~(X)))"],
+            Ty::F => &["(X * 0.0)", "(0.0 * X)", "(X * 1.0)", "(1.0 * X)", "(X + 0.0)", "(0.0 + X)", "(X - 0.0)", "(X - X)", "(X / 1.0)", "(X / X)",
+                       "(0.0 / X)", "(0.0 - X)", "(X * (-1.0))", "(-(-(X)))", "(X % 1.0)"],
+        };
+        let _ = (zero, one);
+        self.rng.pick(forms).replace("X", &x)
+    }
     fn expr(&mut self, ty: Ty, depth: u32) -> String {
+        if self.allow_regs && depth > 0 && self.rng.chance(1, 12) { return self.bait(ty); }
         if depth == 0 || self.rng.chance(1, 6) { return self.leaf(ty); }
         let d = depth - 1;
         match ty {
